@@ -28,13 +28,12 @@ META = {
         "assumptions": ["behaviour the documentation leaves open (cancelled Compute as a read for access expiry; pre/post-read deadline in GetEntry; refresh rule for volunteered bulk keys; whether a load result survives an eviction of its key during the same bulk call) is accepted either way"],
     },
     "C03": {
-        "technique": "deterministic simulation: clock steered onto deadlines (sub-tick, no sweep), every operation kind applied to expired-unswept keys, incl. save/load; model visibility oracle; concurrent histories (clock moved at barriers or asynchronously by tasks) checked with porcupine against a map with deadlines / deadline intervals",
+        "technique": "deterministic simulation: clock steered onto deadlines (sub-tick, no sweep), every operation kind applied to expired-unswept keys, incl. save/load; model visibility oracle; concurrent histories (clock moved at barriers between rounds, as the property quantifies) checked with porcupine against a map with deadlines",
         "level_text": "Seeded search that drives keys into the expired-but-unswept state (clock advanced to deadline-1/deadline/deadline+1, no CleanUp) and applies every public operation kind to them, comparing results, events and state with the model; a second engine saves and reloads caches holding such entries. The op-kind x key-state matrix is reported so an uncovered cell is visible.",
         "level_note": SEQ_NOTE,
-        "rule": "one case = (configuration with expiry, operation sequence [, save/load plan]) or (configuration, per-task programs with barriers) x one schedule. Non-trivial: at least 3 different operation kinds were applied to an expired-but-unswept key (sequence engine), a save/load round trip ran (persistence engine), or operations of different tasks overlapped on a key and the clock moved at a barrier / while they ran (concurrent engines). Distinct: hash of the case (and context-switch sequence).",
+        "rule": "one case = (configuration with expiry, operation sequence [, save/load plan]) or (configuration, per-task programs with barriers) x one schedule. Non-trivial: at least 3 different operation kinds were applied to an expired-but-unswept key (sequence engine), a save/load round trip ran (persistence engine), or operations of different tasks overlapped on a key and the clock moved at a barrier (concurrent engine). Distinct: hash of the case (and context-switch sequence).",
         "components": comp(),
-        "assumptions": ["concurrent form: rounds of 2-4 tasks separated by barriers at which the clock moves onto / around the deadlines (the property's 'clock only moves between operations'); per-key histories are checked with porcupine against the map with deadlines for the built-in policies; a GetEntryQuietly miss during a concurrent overwrite and a SetExpiresAfter lost to a racing write are accepted (the property forbids seeing dead values, not missing live ones)",
-                        "asynchronous-clock form: tasks advance the clock while other operations run; the model keeps deadline bounds [lo, hi] per entry (an operation may see the entry iff hi > its earliest clock value and may miss it iff lo <= its latest), does not narrow them after an observation, treats the lock-free lookup of ComputeIfAbsent/ComputeIfPresent as a separate unreported read, widens the bounds on a racing SetExpiresAfter, and accepts an Expiration event before the deadline (DESIGN.md section 11 gives the reason for each)"],
+        "assumptions": ["concurrent form: rounds of 2-4 tasks separated by barriers at which the clock moves onto / around the deadlines (the property's 'clock only moves between operations'); per-key histories are checked with porcupine against the map with deadlines for the built-in policies; a GetEntryQuietly miss during a concurrent overwrite and a SetExpiresAfter lost to a racing write are accepted (the property forbids seeing dead values, not missing live ones)"],
     },
     "C07": {
         "technique": "deterministic simulation: weights/maxima/clock sequences; every Overflow/Expiration event checked against the model's physical weight and deadlines at that moment",
@@ -70,7 +69,7 @@ META = {
     },
     "C13": {
         "technique": "deterministic simulation: TTLs from ns to years, huge clock jumps, CleanUp as an operation; after each CleanUp every entry overdue by more than one tick must have been reported (timer-wheel sweep oracle)",
-        "level_text": "Four engines: sequential with the same-goroutine executor; sequential with a harness-queued executor (write events are replayed late, after the clock has moved past their deadline - found 159aebe); scripted scenarios (write, advance beyond the deadline, drain, CleanUp) over every wheel level; and a concurrent half where CleanUp races writers. Seeded search with TTLs log-uniform from 1 ns to 3 years (all wheel levels, cascades), extensions, invalidations and clock jumps up to centuries; after each CleanUp at T no entry with deadline and write older than T-1.1s may remain unreported, and EstimatedSize must equal the number of unreported entries.",
+        "level_text": "Four engines: sequential with the same-goroutine executor; sequential with a harness-queued executor (write events are replayed late, after the clock has moved past their deadline - found 159aebe); scripted scenarios (write, advance beyond the deadline, drain, CleanUp) over every wheel level; and a concurrent half where CleanUp (and, in half of the runs, otter's own ticker-driven clean-up goroutine) races writers and deadline-extending readers - a third of its runs are a tiny scripted sweep duel (read near the deadline vs clock step + CleanUp), and in half of the runs the final clock jump goes past every remaining deadline so that CleanUp must leave nothing behind. Seeded search with TTLs log-uniform from 1 ns to 3 years (all wheel levels, cascades), extensions, invalidations and clock jumps up to centuries; after each CleanUp at T no entry with deadline and write older than T-1.1s may remain unreported, and EstimatedSize must equal the number of unreported entries.",
         "level_note": SEQ_NOTE,
         "rule": "one case = (configuration with expiry, operation sequence with CleanUp). Non-trivial: at least one sweep check ran and at least one automatic expiration was observed. Distinct: hash of the case.",
         "components": comp(),
@@ -94,13 +93,14 @@ META = {
     },
     "C02": {
         "technique": "deterministic simulation: seeded schedules (random-walk / PCT / bursts / windows) over instrumented otter; recorded histories checked per key with porcupine against a sequential map with split loads and eviction events",
-        "level_text": "2-4 simulated client goroutines issue Set/SetIfAbsent/GetIfPresent/GetEntry/Compute*/Invalidate/loader-backed Get on 1-6 keys while the real table grows, evicts and maintenance runs (default go executor, caller-runs, queued executor task); every context switch is decided by the seeded scheduler at sync/atomic granularity. Per-key histories stamped with the global event sequence are checked by porcupine; compute callbacks must run exactly once and see the value they replace. A second engine forces an expiry policy and lets tasks advance the clock while other operations are in flight; its histories are checked against the map with deadline intervals (see C03).",
+        "level_text": "2-4 simulated client goroutines issue Set/SetIfAbsent/GetIfPresent/GetEntry/Compute*/Invalidate/loader-backed Get on 1-6 keys while the real table grows, evicts and maintenance runs (default go executor, caller-runs, queued executor task); every context switch is decided by the seeded scheduler at sync/atomic granularity. Per-key histories stamped with the global event sequence are checked by porcupine; compute callbacks must run exactly once and see the value they replace. A second engine forces an expiry policy and lets tasks advance the clock while other operations are in flight; its histories are checked against a map with deadline intervals.",
         "level_note": CONC_NOTE,
         "rule": "one case = (configuration without reachable expiry, or with expiry and clock advances as operations; prefill, per-task programs) x one schedule. Non-trivial: at least two operations of different tasks on the same key overlapped in time and one of them writes (first engine), or operations overlapped and the clock moved (second engine). Distinct: hash of (case, context-switch sequence).",
         "components": comp(),
         "assumptions": ["a loading Get is modelled as two steps (miss observed; result installed or discarded) as in DESIGN.md; a write landing between the miss and the start of the load is therefore not protected (documented observation)",
                         "an automatic removal takes effect at some instant inside the table computation that invokes OnAtomicDeletion (between the handler call and the release of the bucket lock)",
-                        "porcupine timeouts (2 s per key) are counted as unknown, never reported"],
+                        "porcupine timeouts (2 s per key) are counted as unknown, never reported",
+                        "asynchronous-clock form: tasks advance the clock while other operations run; the model keeps deadline bounds [lo, hi] per entry (an operation may see the entry iff hi > its earliest clock value and may miss it iff lo <= its latest), does not narrow them after an observation, treats the lock-free lookup of ComputeIfAbsent/ComputeIfPresent as a separate unreported read, widens the bounds on a racing SetExpiresAfter, and accepts an Expiration event before the deadline (DESIGN.md section 11 gives the reason for each)"],
     },
     "C04": {
         "technique": "deterministic simulation: concurrent writers/readers/SetMaximum under seeded schedules and three executor kinds; bound checked at quiescence after the fair drain phase and CleanUp",
@@ -136,7 +136,7 @@ META = {
     },
     "C09": {
         "technique": "deterministic simulation: loads/refreshes with scheduling points inside the loader racing explicit writes/invalidations on 1-2 keys; stale-load rule over the history plus porcupine with split loads",
-        "level_text": "2-3 tasks on one or two keys: Get/BulkGet/Refresh/BulkRefresh with loaders that yield, against Set/SetIfAbsent/Compute*/Invalidate. For every load whose loader was entered before an explicit write/invalidation W was invoked, neither a read invoked after W returned nor the final contents may show the loaded value, and a not-found load may not remove (nor a load displace) a value written after its loader was entered; plus per-key linearizability with the load split into miss/installation steps.",
+        "level_text": "2-3 tasks on one or two keys: Get/BulkGet/Refresh/BulkRefresh with loaders that yield, against Set/SetIfAbsent/Compute*/Invalidate and InvalidateAll (counted as a write of a key only when the load is a reload and that very call reported the key's removal: the property leaves its effect on loads of absent keys undefined). For every load whose loader was entered before an explicit write/invalidation W was invoked, neither a read invoked after W returned nor the final contents may show the loaded value, and a not-found load may not remove (nor a load displace) a value written after its loader was entered; plus per-key linearizability with the load split into miss/installation steps.",
         "level_note": CONC_NOTE,
         "rule": "one case = (configuration, per-task programs) x one schedule. Non-trivial: an explicit write or invalidation of the key was invoked inside a load window (counted per window position before/after the loader returned). Distinct: hash of (case, context-switch sequence).",
         "components": comp(),
